@@ -41,6 +41,85 @@ CLAIMED["C05"] = (
     "(beyond the lattice) and contextual kerning are outside the bound.",
     "explicit-state BFS over kerning histories with a reference GPOS interpreter as oracle; confluence re-validation")
 
+def row(ref, text, note, tech):
+    return ("DESIGN.md " + ref, text, note, tech)
+
+
+CLAIMED["C02"] = row("§5 C02 / §15",
+    "Every glyph of packed fonts over the full option product (convertCubics x reverseDirection x flattenComponents x "
+    "allQuadratic x cubicConversionError x dropImpliedOnCurves x unitsPerEm = 192 configurations): component tries "
+    "(pure, mixed, shared, three-component, composites of mixed glyphs), a 14-cubic palette, coordinate deviations; "
+    "reloaded glyf compared point-for-point with the independent resolver, cubics by a necessary distance bound, "
+    "composites / maxp / flattening recomputed.",
+    "Trusted: fontTools glyf reader, mc/outline_ref.py. Curve distance is a sampled necessary condition; 2x2 entries "
+    "outside F2Dot14 range are excluded (format limit).",
+    "bounded exhaustive enumeration over option product x component tries against an independent outline resolver")
+CLAIMED["C03"] = row("§5 C03 / §15",
+    "All glyph-name subsets of a 5-name universe x all stored orders up to length 4/5 x explicit orders up to length "
+    "2/3 at the makeOfficialGlyphOrder seam (4.4M / 155M calls), compile-seam orders, all code-point assignments of "
+    "size <= 2/3 per glyph over {41,42,FFFF,10000,1F600} for 3 glyphs x TTF/OTF x both libraries, BFS over UVS "
+    "entries; reference order / cmap / UVS functions written from the statement.",
+    "Trusted: fontTools cmap reader. Name universes > 5 and orders > 5 are outside the bound.",
+    "exhaustive enumeration of glyph-order / code-point assignments; BFS over UVS entries; reference model comparison")
+CLAIMED["C06"] = row("§5 C06 / §15",
+    "BFS over anchor assignments (23 (glyph, anchor-name) slots x 3 positions, depth 3/4, plus rich seed states "
+    "expanded by one op) x 9 environment switches; every ordered glyph pair and every ligature component is "
+    "evaluated by the independent MarkBase/MarkLig/MarkMark interpreter in every state and compared with the "
+    "source anchors; anchor insertion order is re-validated (confluence).",
+    "Trusted: mc/otl_ref.py (selftested). Contextual anchors and > 4 interacting anchors are outside the bound.",
+    "explicit-state BFS over anchor histories with a reference GPOS mark-attachment interpreter as oracle")
+CLAIMED["C08"] = row("§5 C08 / §3",
+    "Schedule space = PYTHONHASHSEED: seeds chosen by a greedy cover until all k! iteration orders of five tracked "
+    "name sets are realised (31 seeds of 0..199); per (input, seed) a fresh subprocess runs every call history of "
+    "depth <= 2/3 over the compile functions on the same objects, and on seeds 0/1 the full product UFO library x "
+    "in-memory/saved-and-reopened(lazy, eager) x inplace x 24/48 construction-order permutations; sha256 of font "
+    "bytes and emitted feature text must equal the fresh reference.",
+    "Trusted: CPython hashing model (only string-hash order is scheduled), SOURCE_DATE_EPOCH pinning.",
+    "exhaustive schedule enumeration over hash-seed-induced set orders x call histories, differential digest oracle")
+CLAIMED["C11"] = row("§5 C11 / §15",
+    "BFS 'add glyph' over a 21-op (name, code point) alphabet to depth 3/4 x 8 public.postscriptNames maps x "
+    "TTF/CFF/CFF2 x forward/reversed glyph order, the complete product of the naming switches (972 cases), "
+    "variable fonts in thorough; per-table raw bytes with production names on vs off and an independent "
+    "restatement of the naming rules.",
+    "Trusted: fontTools sfnt reader. Name sets > 4 are outside the bound.",
+    "explicit-state BFS over glyph-name sets with byte-level differential oracle and reference naming rules")
+CLAIMED["C16"] = row("§5 C16 / §15",
+    "All 1,114,112 code points (and all ordered pairs of the 283 dangerous ones) through the PostScript-name "
+    "normaliser; deviation bounding (k <= 1 quick, k <= 2 thorough) over 92 fontinfo attributes x 176 menu values "
+    "from three bases x TTF/OTF(/CFF2/defcon) with an independent fontinfo->table-field reference (mc/info_ref.py); "
+    "designspace public.fontInfo overrides through compileVariableTTF.",
+    "Trusted: fontTools table readers, mc/info_ref.py (selftested). Strings > 2 characters and interactions of order "
+    "> 2 are outside the bound.",
+    "exhaustive code-point enumeration + deviation-bounded enumeration of fontinfo against an independent field map")
+CLAIMED["C17"] = row("§5 C17 / §15",
+    "BFS 'append top-level statement' over a 35-block palette (languagesystems, class/lookup definitions, GSUB "
+    "feature, kern/dist/mark/mkmk/curs blocks in six marker shapes, GDEF, comment) to depth 2 (+1 restricted) / 3 "
+    "(+1), x 10 writer lists x skip/append on the shorter histories; emitted feature source parsed back and compared "
+    "with the user's statements; GSUB byte identity; GSUB-writer position independence.",
+    "Trusted: feaLib parser/asFea as canonical form. Nested blocks deeper than one level and include() are outside.",
+    "explicit-state BFS over feature-file construction histories with a subsequence / placement oracle")
+CLAIMED["C18"] = row("§5 C18 / §15",
+    "All 7^5 category maps over (base, ligature, mark, skipped, nonexistent) glyph names, with user GDEF variants; "
+    "BFS over caret anchors (6 names x 4 coordinates, depth 3/4); all 6^4 entry/exit shape assignments to (Latin, "
+    "Arabic, common, unencoded) glyphs with/without a GSUB alternate and with/without any LTR glyph; GDEF classes, "
+    "LigCaretList and CursivePos records + RightToLeft flag read back and compared with the source.",
+    "Trusted: fontTools GDEF/GPOS readers.",
+    "exhaustive enumeration of category maps / cursive assignments, BFS over caret anchors, reference comparison")
+CLAIMED["C19"] = row("§5 C19 / §15",
+    "164-186 designspace setups (5 topologies x axis map x rounding x rule sets x scribble mode) x call histories of "
+    "<= 3/4 generate_instance / replace_source_layers / swap requests on ONE instantiator at every grid location; "
+    "results compared with the master data or an independent closed-form blend (mc/var_ref.py), with a fresh "
+    "instantiator (history independence), and sources with their snapshots (frame).",
+    "Trusted: fontTools VariationModel only for sparse/intermediate mixes, mc/var_ref.py (selftested), mc/snapshot.py.",
+    "explicit-state exploration of call histories on live objects with differential and frame oracles")
+CLAIMED["C20"] = row("§5 C20 / §15",
+    "Complete product: 5 repertoire mixes x 2 kerning kinds x 3 anchor kinds x all 32 subsets of a 5-statement "
+    "languagesystem menu x 3 user-feature shapes (x TTF/OTF in thorough); every script and language system of the "
+    "compiled GPOS is checked for reachability of every generated attaching feature that has a complete pair "
+    "usable in that script.",
+    "Trusted: fontTools GPOS reader, fontTools.unicodedata.",
+    "exhaustive enumeration of configuration product with a ScriptList reachability invariant")
+
 NOT_APPLICABLE = {}
 
 
